@@ -2,15 +2,15 @@
 import itertools
 
 from gearpy.motor_control import PWMControl
-from gearpy.motor_control.rules import ConstantPWM, ReachAngularPosition
-from gearpy.sensors import AbsoluteRotaryEncoder, Timer
-from gearpy.units import Angle, AngularPosition, Time, TimeInterval
+from gearpy.motor_control.rules import ConstantPWM, ReachAngularPosition, StartLimitCurrent, StartProportionalToAngularPosition
+from gearpy.sensors import AbsoluteRotaryEncoder, Tachometer, Timer
+from gearpy.units import Angle, AngularPosition, Current, Time, TimeInterval
 
 from gmc import menu, sim, si
 from gmc.core import Acc
 
 ID = 'C12'
-RULE = ('4 models (plain; self-locking + overload ending held; timer/position controlled; time-dependent load) x ALL '
+RULE = ('10 models (plain; self-locking ones ending held / at rest / with declared duty 0; controlled by every rule kind in turn; time-dependent load) x ALL '
         'schedules of up to 3 runs with n in the bound (every split point) x unit of dt and of T in later runs; '
         'differential oracle: [run n1, run n2(, run n3)] == [run n1+n2(+n3)] and [S, reset, (new solver,) S] second '
         'execution bit-equal to the first; canon = (model, schedule, units); non-trivial = a schedule with >= 2 runs')
@@ -20,7 +20,7 @@ ASSUMPTIONS = ['"re-applying the initial conditions" = setting position and spee
 EXPLANATION = 'exhaustive schedules (split points, units) with a differential oracle between two executions of the real code'
 
 DT = 0.125
-MODELS = ['plain', 'locking', 'overload', 'locking-d0', 'declared-duty-0', 'rest-in-dead-zone', 'controlled', 'timeload']
+MODELS = ['plain', 'locking', 'overload', 'locking-d0', 'declared-duty-0', 'rest-in-dead-zone', 'controlled', 'soft-start', 'limit-start', 'timeload']
 
 
 def bounds(tier):
@@ -64,6 +64,12 @@ def model_spec(name):
         spec['load'] = ['const', 0.3 * menu.stall_at_output(spec)]
         spec['declared_pwm'] = 0
         duty = [0.8, 0.8, 1, 1, 0.5, 1, 1, 1, 1, 1, 1, 1, 1, 1, 1, 1]
+    elif name in ('soft-start', 'limit-start'):
+        # all rule kinds taking turns: a start rule whose window closes after a few instants, a timer window, a braking rule;
+        # ONE control object (and its rule and sensor objects) serves every run of a schedule, reset included
+        spec = menu.assign([('J', 'S'), ('G', 'S')], motor=menu.MOTOR_CUR, init={'theta': [0.0, 'rad'], 'w': [0.0, 'rad/s']})
+        spec['load'] = ['const', 0.2 * menu.stall_at_output(spec)]
+        duty = 'rules:' + name
     elif name == 'controlled':
         spec = menu.assign([('J', 'S'), ('G', 'S')], motor=menu.MOTOR_CUR, init={'theta': [0.0, 'rad'], 'w': [0.0, 'rad/s']})
         spec['load'] = ['const', 0.2 * menu.stall_at_output(spec)]
@@ -76,10 +82,23 @@ def model_spec(name):
     return spec, duty
 
 
-def install_rules(m, dtv):
+def install_rules(m, dtv, kind='rules'):
     """Timer window edges sit mid-step; position rule far enough to trigger late."""
     pt = m.pt
     ctl = PWMControl(powertrain=pt)
+    if kind != 'rules':
+        enc = AbsoluteRotaryEncoder(target=m.elements[-1])
+        if kind == 'rules:soft-start':
+            ctl.add_rule(StartProportionalToAngularPosition(encoder=enc, powertrain=pt, target_angular_position=AngularPosition(0.3, 'rad'),
+                                                            pwm_min_multiplier=2))
+        else:
+            ctl.add_rule(StartLimitCurrent(encoder=enc, tachometer=Tachometer(m.elements[0]), motor=m.elements[0],
+                                           target_angular_position=AngularPosition(0.4, 'rad'), limit_electric_current=Current(1.0, 'A')))
+        ctl.add_rule(ConstantPWM(timer=Timer(start_time=Time(8.5 * dtv, 'sec'), duration=TimeInterval(2.0 * dtv, 'sec')), powertrain=pt,
+                                 target_pwm_value=0.4))
+        ctl.add_rule(ReachAngularPosition(encoder=enc, powertrain=pt, target_angular_position=AngularPosition(7.0, 'rad'),
+                                          braking_angle=Angle(2.5, 'rad')))
+        return ctl
     timer = Timer(start_time=Time(2.5 * dtv, 'sec'), duration=TimeInterval(3.0 * dtv, 'sec'))
     ctl.add_rule(ConstantPWM(timer=timer, powertrain=pt, target_pwm_value=0.4))
     enc = AbsoluteRotaryEncoder(target=m.elements[-1])
@@ -95,7 +114,7 @@ def execute(name, ops, dtv):
     m = sim.Model(spec)
     if 'declared_pwm' in spec:
         m.elements[0].pwm = spec['declared_pwm']       # part of the declared initial state; reset() must bring it back itself
-    ctl = install_rules(m, dtv) if duty == 'rules' else None
+    ctl = install_rules(m, dtv, duty) if isinstance(duty, str) else None
     segs = []
     err = None
     for op in ops:
@@ -226,7 +245,7 @@ def run_shard(shard, tier):
                     check_continuation(acc, name, dtv, (n1, n2), units)
                     acc.nstates += 1
                     acc.cases += 1
-                if name in ('plain', 'controlled', 'timeload'):
+                if name in ('plain', 'controlled', 'soft-start', 'limit-start', 'timeload'):
                     # (a Solver only carries the held state of a self-locking chain; on other chains a Solver created
                     #  between the runs holds nothing the continuation could depend on)
                     check_continuation(acc, name, dtv, (n1, n2), combos[0], newsolver=True)
